@@ -1,0 +1,11 @@
+//go:build verif
+
+package couchbase
+
+// Additive, verification-only exports (compiled only with `-tags verif`).
+
+// VerifCheckpointID exposes getCheckpointID (the key of the per-vBucket
+// checkpoint document, including its group-name check) to /verif/harness.
+func VerifCheckpointID(vbID uint16, groupName string) []byte {
+	return getCheckpointID(vbID, groupName)
+}
